@@ -223,7 +223,7 @@ func deriveOptions(used, want *neat.Options) *neat.Options {
 }
 
 func genC17() *rapid.Generator[C17Case] {
-	main := genScenario(ScenarioCfg{MaxEpochs: pick(20, 30), Parallel: 0, Structural: true, Warm: true, Retry: true})
+	main := genScenario(ScenarioCfg{MaxEpochs: pick(20, 30), Parallel: 0, Structural: true, Warm: true, Retry: true, BigPops: true})
 	other := genScenario(ScenarioCfg{MaxEpochs: 2, Parallel: 1, Structural: true, MaxPop: 8, CancelTail: true})
 	modular := genGenomeSpec(GenomeCfg{Modules: true, MinGenes: 1, MaxHidden: 2, MaxGenes: 8, ModestWeight: true})
 	return rapid.Custom(func(t *rapid.T) C17Case {
